@@ -36,8 +36,9 @@ How: *structurally*, statement by statement; every function becomes a Lean term 
     raise ValueError(msg)     (throw PyErr.valueError)  (TypeError, AttributeError alike; messages dropped)
     try: <block that always returns> except E: <handler>
                               (match <block> with | .ok r => pure r | .error PyErr.<E> => <handler; rest>
-                               | .error e => throw e);  E in ValidationError / ValueError / TypeError /
-                              AttributeError (also as a tuple); `except Exception` / bare catches all
+                               | .error e => throw e);  E in ValidationError / ValueError (catches
+                              ValidationError too: pydantic derives it from ValueError) / TypeError /
+                              AttributeError / RecursionError (also as a tuple); `except Exception` / bare: all
     for k, v in self.__partial_fac__._get_field_vals(x): body
                               List.foldlM over the items; loop state = the variables assigned or updated in
                               the body that exist before the loop (no `return`/`break`/`continue` inside)
@@ -131,6 +132,10 @@ LEAN_TY = {"val": "V", "bool": "Bool", "optstrlist": "Option (List String)", "st
            "str": "String", "cls": "PyCls", "items": "List (String × PVal)"}
 EXC = {"ValueError": "valueError", "TypeError": "typeError", "ValidationError": "validationError",
        "AttributeError": "attributeError", "RecursionError": "recursionError"}
+# what an `except <name>` clause catches (pydantic's ValidationError is a subclass of ValueError,
+# RecursionError of RuntimeError)
+CATCHES = {"ValueError": ["valueError", "validationError"], "TypeError": ["typeError"], "ValidationError": ["validationError"],
+           "AttributeError": ["attributeError"], "RecursionError": ["recursionError"], "RuntimeError": ["recursionError"]}
 CATCH_ALL = {"Exception", "BaseException"}
 
 
@@ -607,6 +612,28 @@ class Fn:
                     add(n.target.id)
         return out
 
+    @staticmethod
+    def narrow(test, env):
+        """what a test on an `Optional[List[str]]` name tells about it: (env if true, env if false).
+        `if p:` -> p is a non-empty list; `if p is not None:` -> p is a list."""
+        neg = False
+        while isinstance(test, ast.UnaryOp) and isinstance(test.op, ast.Not):
+            test, neg = test.operand, not neg
+        name, how = None, None
+        if isinstance(test, ast.Name):
+            name, how = test.id, "(optOr %s [])"
+        elif (isinstance(test, ast.Compare) and len(test.ops) == 1 and isinstance(test.ops[0], (ast.Is, ast.IsNot))
+              and isinstance(test.left, ast.Name) and isinstance(test.comparators[0], ast.Constant) and test.comparators[0].value is None):
+            name, how = test.left.id, "(Option.getD %s [])"
+            if isinstance(test.ops[0], ast.Is):
+                neg = not neg
+        v = env.get(name) if name else None
+        if v is None or v.ty != "optstrlist":
+            return env, env
+        env2 = dict(env)
+        env2[name] = Var(how % v.lean, "strlist", v.fresh)
+        return (env, env2) if neg else (env2, env)
+
     def block(self, stmts, env, k, ind, in_loop=False):
         """Lean term for a statement list; `k(env)` is the term for falling off its end"""
         if not stmts:
@@ -704,8 +731,9 @@ class Fn:
             pend = self.take()
             i0 = ind2 if pend else ind
             i1 = i0 + "  "
-            thn = self.block(s.body + rest, env, k, i1, in_loop) if not self.always_leaves(s.body) else self.block(s.body, env, k, i1, in_loop)
-            els = self.block(list(s.orelse) + rest, env, k, i1, in_loop)
+            env_t, env_f = self.narrow(s.test, env)
+            thn = self.block(s.body + rest, env_t, k, i1, in_loop) if not self.always_leaves(s.body) else self.block(s.body, env_t, k, i1, in_loop)
+            els = self.block(list(s.orelse) + rest, env_f, k, i1, in_loop)
             body = "%s(if %s then\n%s\n%selse\n%s)" % (i0, c, thn, i0, els)
             return self.wrap(pend, body, ind)
         if isinstance(s, ast.Try):
@@ -727,11 +755,12 @@ class Fn:
                     catch_all = True
                     break
                 for n in names:
-                    if not (isinstance(n, ast.Name) and n.id in EXC):
+                    if not (isinstance(n, ast.Name) and n.id in CATCHES):
                         _bad("except `%s` is not in the table" % _d(n), h)
-                    pat = "%s| .error PyErr.%s =>\n%s" % (ind2, EXC[n.id], hb)
-                    if not any(a.split("=>")[0] == pat.split("=>")[0] for a in arms):
-                        arms.append(pat)
+                    for exc in CATCHES[n.id]:
+                        pat = "%s| .error PyErr.%s =>\n%s" % (ind2, exc, hb)
+                        if not any(a.split("=>")[0] == pat.split("=>")[0] for a in arms):
+                            arms.append(pat)
             if not catch_all:
                 arms.append("%s| .error e => (throw e)" % ind2)
             return "%s(match (\n%s : M V) with\n%s| .ok r => (pure r)\n%s)" % (ind, body, ind2, "\n".join(arms))
